@@ -570,6 +570,63 @@ func off[S any, F any](s *S, f *F) uintptr { return uintptr(unsafe.Pointer(f)) -
                 self.w('\tif pn, msg := rt.Derive(func() { _ = %s }); pn {\n\t\trt.Refused(%s, c, %s + msg)\n\t}' % (expr, q(prop), q(expr + ': ')))
             self.w('\trt.End(c, "%s/static/hidden", true)\n}\n' % prop)
 
+    def gen_static_shapes(self):
+        """hand-written shapes, second batch: a focus 64 KiB and more into its container; a value-embedded struct that
+        follows a pointer-typed field inside another value-embedded struct; fields embedded through an alias, a generic
+        instantiation and a predeclared type (their names are the field names, not the type names)"""
+        self.decls.append('type QInner struct {\n\tQa int16\n\tQb string\n}\n'
+                          'type QHuge struct {\n\tHead int32\n\tBuf [1 << 16]byte\n\tSize int64\n\tQInner\n\tMid [3000]uint64\n\tTail string\n}\n'
+                          'type RW struct {\n\tX int32\n\tY string\n}\ntype RV struct {\n\tP *int\n\tRW\n\tQ *RW\n\tK uint8\n}\n'
+                          'type RTop struct {\n\tA [3]uint64\n\tRV\n\tZ int8\n}\n'
+                          'type eCore struct{ U uint16 }\ntype EAlias = eCore\ntype EBox[T any] struct{ V T }\n'
+                          'type EOuter struct {\n\tHead int8\n\tEAlias\n\tEBox[int]\n\tbyte\n\tTail string\n}\n'
+                          'const decl_shapes2 = "QHuge{Head int32; Buf [65536]byte; Size int64; QInner{Qa int16; Qb string}; Mid [3000]uint64; Tail string} RTop{A [3]uint64; RV{P *int; RW{X int32; Y string}; Q *RW; K uint8}; Z int8} EOuter{Head int8; EAlias(=eCore{U uint16}); EBox[int]{V int}; byte; Tail string}"')
+        def optic(prop, S, T, sel, get, put, fill, vals):
+            return ('rt.Optic[%s]{Prop: %s, C: c, Kind: "lens",\n\t\tGet: func(s *%s) any { return %s },\n\t\tPut: func(s *%s, v any) *%s { return %s },\n'
+                    '\t\tRead: func(s *%s) any { return s.%s },\n\t\tWrite: func(s *%s, v any) { s.%s = unbox[%s](v) },\n'
+                    '\t\tRegions: func(s *%s) []rt.Region { return []rt.Region{{Off: off(s, &s.%s), Size: unsafe.Sizeof(s.%s)}} },\n'
+                    '\t\tFill: %s, Vals: %s}') % (S, q(prop), S, get, S, S, put, S, sel, S, sel, T, S, sel, sel, fill, vals)
+        fillQ = 'func(s *QHuge, k int) { s.Head = int32(k); for i := range s.Buf { s.Buf[i] = byte(i*7 + k) }; s.Size = int64(k) * 1000003; s.Qa = int16(k + 5); s.Qb = fmt.Sprint("qb", k); for i := range s.Mid { s.Mid[i] = uint64(i ^ k) }; s.Tail = fmt.Sprint("tail", k) }'
+        fillR = 'func(s *RTop, k int) { s.A = [3]uint64{uint64(k), uint64(k) + 1, uint64(k) + 2}; s.P = new(int); s.X = int32(100 + k); s.Y = fmt.Sprint("y", k); s.Q = &RW{X: 7}; s.K = uint8(k); s.Z = int8(k) }'
+        foci = [('QHuge', 'int64', 'Size', fillQ, 'box([]int64{0, -1, 1 << 40})'), ('QHuge', 'int16', 'Qa', fillQ, 'box([]int16{0, -3, 999})'), ('QHuge', 'string', 'Qb', fillQ, 'box([]string{"", "zz"})'),
+                ('QHuge', 'string', 'Tail', fillQ, 'box([]string{"", "t"})'), ('QHuge', 'int32', 'Head', fillQ, 'box([]int32{0, 77})'),
+                ('RTop', 'int32', 'X', fillR, 'box([]int32{0, -9, 1 << 20})'), ('RTop', 'string', 'Y', fillR, 'box([]string{"", "w"})'), ('RTop', 'uint8', 'K', fillR, 'box([]uint8{0, 200})'), ('RTop', 'int8', 'Z', fillR, 'box([]int8{0, -7})')]
+        for prop in ('C01', 'C02'):
+            self.out = self.bufs.setdefault(prop, [])
+            self.fns = self.fnsby.setdefault(prop, [])
+            fn = 'case_static_shapes2_%s' % prop
+            self.fns.append(fn)
+            self.w('func %s() {' % fn)
+            self.w('\tc := rt.Case{ID: "%s-static-shapes2", Site: "far-and-nested-foci", Struct: "QHuge, RTop", Req: "lenses and reflectors by name (and by type where the type is the first of its kind) on foci 64 KiB into the container and on a struct embedded after a pointer field", Expect: "focus exactly the field", Decl: decl_shapes2}' % prop)
+            self.w('\tif !rt.Want(%s, c.ID) || !rt.Begin(c) {\n\t\treturn\n\t}' % q(prop))
+            for i, (S, T, sel, fill, vals) in enumerate(foci):
+                self.w('\t{')
+                self.w('\t\tvar l optics.Lens[%s, %s]\n\t\tvar rf optics.Reflector[%s]' % (S, T, T))
+                self.w('\t\tif pn, msg := rt.Derive(func() {\n\t\t\tl = optics.ForProduct1[%s, %s](%s)\n\t\t\trf = optics.ForSpectrum1[%s, %s](%s)\n\t\t}); pn {\n\t\t\trt.Refused(%s, c, %s+msg)\n\t\t} else {' % (S, T, q(sel), S, T, q(sel), q(prop), q('%s.%s: ' % (S, sel))))
+                self.w('\t\t\trt.CheckOptic(%s)' % optic(prop, S, T, sel, 'l.Get(s)', 'l.Put(s, unbox[%s](v))' % T, fill, vals))
+                self.w('\t\t\trt.CheckOptic(%s)' % optic(prop, S, T, sel, 'rf.Gett(s)', 'unbox[*%s](rf.Putt(s, unbox[%s](v)))' % (S, T), fill, vals))
+                self.w('\t\t}\n\t}')
+            self.w('\trt.End(c, "%s/static/shapes2", true)\n}\n' % prop)
+        # C03: names of embedded fields
+        self.out = self.bufs.setdefault('C03', [])
+        self.fns = self.fnsby.setdefault('C03', [])
+        self.fns.append('case_static_embedded_names')
+        self.w('func case_static_embedded_names() {')
+        self.w('\tc := rt.Case{ID: "C03-static-embedded-names", Site: "embedded-names", Struct: "EOuter", Req: "listing and lookups by name of fields embedded through an alias, a generic instantiation and a predeclared type", Expect: "an embedded field is known by its field name (reflect.StructField.Name)", Decl: decl_shapes2}')
+        self.w('\tif !rt.Want("C03", c.ID) || !rt.Begin(c) {\n\t\treturn\n\t}')
+        self.w('\tseq := hseq.New[EOuter]()')
+        self.w('\tnames := hseq.FMap(seq, func(t hseq.Type[EOuter]) string { return t.FieldKey() })')
+        self.w('\twant := []string{"Head", "EAlias", "U", "EBox", "V", "byte", "Tail"}')
+        self.w('\tif fmt.Sprint(names) != fmt.Sprint(want) {\n\t\trt.Vio("C03", c, "listing-names", fmt.Sprintf("keys of the listing are %v, the fields are %v", names, want))\n\t}')
+        for i, k in enumerate(['Head', 'EAlias', 'U', 'EBox', 'V', 'byte', 'Tail']):
+            self.w('\trt.CheckLookup("C03", c, %s, %d, func() int { return hseq.ForName(seq, %s).ID })' % (q('ForName(%s)' % k), i, q(k)))
+            self.w('\trt.CheckMaybe("C03", c, %s, %d, func() (int, bool) { t, ok := hseq.ForNameMaybe(seq, %s); return t.ID, ok })' % (q('ForNameMaybe(%s)' % k), i, q(k)))
+        for k in ['eCore', 'EBox[int]', 'uint8', 'main.eCore']:
+            self.w('\trt.CheckLookup("C03", c, %s, -1, func() int { return hseq.ForName(seq, %s).ID })' % (q('ForName(%s)' % k), q(k)))
+            self.w('\trt.CheckMaybe("C03", c, %s, -1, func() (int, bool) { t, ok := hseq.ForNameMaybe(seq, %s); return t.ID, ok })' % (q('ForNameMaybe(%s)' % k), q(k)))
+        self.w('\trt.CheckIDsF("C03", c, "New(Tail, EBox, EAlias)", func() []int { return hseq.FMap(hseq.New[EOuter]("Tail", "EBox", "EAlias"), func(t hseq.Type[EOuter]) int { return t.ID }) }, []int{6, 3, 1})')
+        self.w('\trt.End(c, "C03/static/embedded-names", true)\n}\n')
+
     def twist(self, st):
         """the same type names with another layout (fields reversed, one more in front), as local declarations
         in dependency order; returns (twisted root, [decl text])"""
@@ -1287,6 +1344,7 @@ func off[S any, F any](s *S, f *F) uintptr { return uintptr(unsafe.Pointer(f)) -
         self.gen_cases()
         self.gen_static()
         self.gen_static_hidden()
+        self.gen_static_shapes()
         srcs = {}
         for prop in ('C01', 'C02', 'C03', 'C04'):
             self.out = []
